@@ -336,8 +336,8 @@ class SymbolicTensorNetwork:
                 axes_map.remove(joinax[0])
             if num_open_axes_orig + joinax[1] in axes_map:
                 axes_map.remove(num_open_axes_orig + joinax[1])
-        # to-be deleted open axes
-        del_axes = [i*num_open_axes_orig + joinax[i] for joinax in join_axes for i in range(2)]
+        # to-be deleted open axes (each axis once, even if it takes part in several joins)
+        del_axes = [i for i in range(tensor_open_axes.ndim) if i not in axes_map]
         # remove to-be deleted open axes references from bonds
         for delax in del_axes:
             bid = tensor_open_axes.bids[delax]
